@@ -73,7 +73,9 @@ func c15SmallScope(c *Ctx, base rune, maxN int, sample *rng.R, sampleN int) {
 		}
 		in := mk(list)
 		// Flatten
-		out, calls := verifhook.Flatten(in)
+		var out []verifhook.Range
+		var calls []verifhook.FlattenCall
+		c.Guard(fmt.Sprintf("rang3.Flatten(%v)", in), nil, func() { out, calls = verifhook.Flatten(in) })
 		got, ok := toBits(out)
 		if !ok || got != want {
 			report("flatten-wrong-set", fmt.Sprintf("Flatten(%v) = %v", in, out), in)
@@ -104,7 +106,8 @@ func c15SmallScope(c *Ctx, base rune, maxN int, sample *rng.R, sampleN int) {
 			}
 		}
 		uin := mk(uniq)
-		ncalls := verifhook.Normalize(uin)
+		var ncalls []verifhook.NormalizeCall
+		c.Guard(fmt.Sprintf("rang3.Normalize(%v)", uin), nil, func() { ncalls = verifhook.Normalize(uin) })
 		// shadow labelling: original range -> current pieces
 		pieces := map[verifhook.Range]map[verifhook.Range]bool{}
 		for _, o := range uin {
@@ -167,7 +170,8 @@ func c15SmallScope(c *Ctx, base rune, maxN int, sample *rng.R, sampleN int) {
 		for _, r := range b {
 			wb |= rangeBits(r.lo, r.hi)
 		}
-		out := verifhook.Subtract(mk(a), mk(b))
+		var out []verifhook.Range
+		c.Guard(fmt.Sprintf("rang3.Subtract(%v, %v)", mk(a), mk(b)), nil, func() { out = verifhook.Subtract(mk(a), mk(b)) })
 		got, ok := toBits(out)
 		if !ok || got != wa&^wb {
 			report("subtract-wrong-set", fmt.Sprintf("Subtract(%v, %v) = %v", mk(a), mk(b), out), nil)
